@@ -466,7 +466,35 @@ class MailExecutor(UnitsExecutor):
             # a clause of the callee's contract is not applicable to the values the (changed) code passes: unrecognised shape
             raise Unsupported(f"{self.loc(node)} contract of {c.target.split('::')[-1]} not applicable here: {type(e).__name__}: {e}"[:300])
 
+    def _listlike(self, st, v):
+        """(length, elem, kind) of a list value that takes part in a symbolic concatenation, or None"""
+        if isinstance(v, VRef) and st.obj(v.ref).kind == "alist":
+            d = st.obj(v.ref).data
+            return d.length, d.elem, d.ekind
+        if isinstance(v, VSeq):
+            return v.length, v.elem, v.ekind
+        items = self.concrete_items(st, v) if isinstance(v, (VRef, VTuple)) else None
+        if items is not None and (not isinstance(v, VRef) or st.obj(v.ref).kind == "list"):
+            kinds = {repr(X.ekind_of_value(x)) for x in items}
+            kind = X.ekind_of_value(items[0]) if len(kinds) == 1 else "unk"
+            return z3.IntVal(len(items)), (lambda k, items=items: X._sel(items, k)), kind
+        return None
+
+    def b_zip(self, st, args, kwargs, node):
+        args = [st.obj(a.ref).data if isinstance(a, VRef) and st.obj(a.ref).kind == "alist" else a for a in args]
+        return super().b_zip(st, args, kwargs, node)
+
     def binop(self, st, op, a, b, node, inplace=False):
+        if op == "Add" and not inplace and (isinstance(a, VSeq) or isinstance(b, VSeq) or any(
+                isinstance(x, VRef) and st.obj(x.ref).kind == "alist" for x in (a, b))):
+            la, lb = self._listlike(st, a), self._listlike(st, b)
+            if la is not None and lb is not None:
+                (n1, e1, k1), (n2, e2, k2) = la, lb
+                kind = k1 if k1 == k2 or z3.is_int_value(z3.simplify(n2)) and z3.simplify(n2).as_long() == 0 else (k2 if z3.is_int_value(z3.simplify(n1)) and z3.simplify(n1).as_long() == 0 else None)
+                if kind is None or kind == "unk":
+                    raise Unsupported(f"{self.loc(node)} concatenation of lists of different element kinds")
+                sq = VSeq(z3.simplify(n1 + n2), lambda k: X._ite_val(k < n1, e1(k), e2(k - n1)), kind)
+                return [(st, self.new_alist(st, sq))]
         if isinstance(a, VOpt) or isinstance(b, VOpt):
             for x in (a, b):
                 if isinstance(x, VOpt):
